@@ -87,14 +87,76 @@ Definition run_chunks (c : c16case) : list (list Z) :=
   end.
 Definition run_C16 (c : c16case) : list Z := join (run_chunks c).
 
-(* ---- the property's own oracle, on what the IMPLEMENTATION did: the state reached by the
-   schedule (with its acknowledgements) is the state reached by one of the serial orders, as the
-   implementation itself produced them ---- *)
+(* ---- the property's own semantics of ONE mutation applied alone to a state (written without the
+   read / write split): assigned scalar fields take the new value, every other field keeps its
+   value; a single reference replaces the references of its field unless it is already there; an
+   array reference adds the targets not yet referenced through THAT field; null removes the
+   references of the field; a given room moves the row; a mutation that changes nothing leaves the
+   row (and its modification date) as it is ---- *)
+Definition label_removed (es : list edge) (refs : list refop) (l : N) : bool :=
+  existsb (fun op => match op with
+                     | RClear l' => N.eqb l' l
+                     | RSet l' dst => N.eqb l' l && negb (edge_exists l' dst es)
+                     | RAdd _ _ => false
+                     end) refs.
+Definition spec_new_edges (x : N) (date : Z) (es : list edge) (op : refop) : list edge :=
+  match op with
+  | RAdd l ds => map (fun dst => mk_edge x l dst date) (filter (fun dst => negb (edge_exists l dst es)) ds)
+  | RSet l dst => if edge_exists l dst es then [] else [mk_edge x l dst date]
+  | RClear _ => []
+  end.
+Definition spec_ref_effective (es : list edge) (op : refop) : bool :=
+  match op with
+  | RAdd l ds => existsb (fun dst => negb (edge_exists l dst es)) ds
+  | RSet l dst => negb (edge_exists l dst es)
+  | RClear l => existsb (fun e => N.eqb (e_label e) l) es
+  end.
+Definition room_changes (old : row) (m : mutation) : bool :=
+  match m_room m with
+  | Some r => negb (opt_eqb N.eqb (r_room old) (Some r))
+  | None => false
+  end.
+Definition spec_apply (m : mutation) (d : db) : db :=
+  match find_row (m_row m) d with
+  | None => d
+  | Some old =>
+      let x := m_row m in
+      let es := edges_of x d in
+      let changed := negb (is_nil (m_assign m)) || existsb (spec_ref_effective es) (m_refs m)
+                     || room_changes old m in
+      let new := {| r_id := r_id old;
+                    r_room := match m_room m with Some r => Some r | None => r_room old end;
+                    r_mdate := m_date m;
+                    r_fields := merge_fields (r_fields old) (m_assign m) |} in
+      {| rows := if changed then map (fun r => if N.eqb (r_id r) x then new else r) (rows d) else rows d;
+         edges := fold_left (fun acc e => insert_edge e acc)
+                    (flat_map (spec_new_edges x (m_date m) es) (m_refs m))
+                    (filter (fun e => negb (N.eqb (e_src e) x && label_removed es (m_refs m) (e_label e)))
+                            (edges d)) |}
+  end.
+Definition spec_apply_i (ms : list mutation) (d : db) (i : nat) : db :=
+  match nth_error ms i with Some m => spec_apply m d | None => d end.
+
+(* indices acknowledged according to the observed acknowledgement flags *)
+Definition acked_of (acks : list Z) : list nat :=
+  map fst (filter (fun p => Z.eqb (snd p) 1) (combine (seq 0 (length acks)) acks)).
+
+(* ---- the property's own oracle, on what the IMPLEMENTATION did (first chunk: acknowledgement
+   flags, then the final rows and references): the final state is the state that the
+   acknowledged mutations give when applied one after another, with the semantics above, in
+   some order.  The implementation's own serial runs (the other chunks) are NOT consulted: they are
+   compared with the model (correspondence) and judged themselves as cases of their own. ---- *)
 Definition spec_chunks (c : c16case) (ch : list (list Z)) : bool :=
   match c with
   | CSched d nf ms sigma _ =>
       match ch with
-      | h :: t => Nat.eqb (length t) (length (perms (seq 0 (length ms)))) && existsb (zlist_eqb h) t
+      | h :: _ =>
+          let n := length ms in
+          let acks := firstn n h in
+          let fin := skipn n h in
+          Nat.eqb (length acks) n &&
+          existsb (fun pi => zlist_eqb fin (obs_db nf (fold_left (spec_apply_i ms) pi d)))
+                  (perms (acked_of acks))
       | [] => false
       end
   | CNote => true
@@ -115,10 +177,28 @@ Definition complete (n : nat) (sigma : list ev) : bool :=
   forallb (fun i => existsb (ev_eqb (R i)) sigma && existsb (ev_eqb (W i)) sigma) (seq 0 n).
 
 (* known-finding class 1: the schedule contains overlapping read-write windows on one row
-   (a Read of a mutation on row x between the Read and the Write of another mutation on x) *)
+   (a Read of a mutation on row x between the Read and the Write of another mutation on x).
+   known-finding class 2: in some serial order of the case's mutations, a mutation that names a
+   room different from the row's room changes no field and no reference: the code then writes
+   nothing ("nothing changed, the node will not be updated") and the acknowledged move is dropped *)
+Definition ignored_move (d : db) (m : mutation) : bool :=
+  match find_row (m_row m) d with
+  | Some old =>
+      room_changes old m &&
+      negb (negb (is_nil (m_assign m)) || existsb (spec_ref_effective (edges_of (m_row m) d)) (m_refs m))
+  | None => false
+  end.
+Fixpoint moves_ok (ms : list mutation) (d : db) (pi : list nat) : bool :=
+  match pi with
+  | [] => true
+  | i :: t => negb (match nth_error ms i with Some m => ignored_move d m | None => false end)
+              && moves_ok ms (apply ms d i) t
+  end.
 Definition known_C16 (c : c16case) : list Z :=
   match c with
-  | CSched d nf ms sigma _ => if windows_ok ms [] sigma then [] else [1]
+  | CSched d nf ms sigma _ =>
+      (if windows_ok ms [] sigma then [] else [1]) ++
+      (if forallb (moves_ok ms d) (perms (seq 0 (length ms))) then [] else [2])
   | CNote => []
   end.
 
